@@ -44,6 +44,10 @@ type RunCtx struct {
 
 	S      *rt.Sched
 	Picker *TapePicker
+
+	// AtomicYields (seam S5): the simulations of this run treat the
+	// operations of sync/atomic in the rewritten packages as scheduling points.
+	AtomicYields bool
 }
 
 func newRunCtx(prop, profile, tier string, t *Tapes, keepLog bool) *RunCtx {
@@ -139,6 +143,7 @@ func (c *RunCtx) Sim(o SimOpts, root func(s *rt.Sched)) rt.Result {
 	c.Stats["strategy_"+StrategyNames[p.Strategy]]++
 	res := rt.Run(p, o.MaxSteps, c.KeepLog, func(s *rt.Sched) {
 		c.S = s
+		s.AtomicYields = c.AtomicYields
 		root(s)
 	})
 	s := c.S
@@ -154,6 +159,9 @@ func (c *RunCtx) Sim(o SimOpts, root func(s *rt.Sched)) rt.Result {
 		c.Stats["clock_jumps"] += s.ClockJumps
 		c.Stats["early_timer_fires"] += s.EarlyFires
 		c.Stats["lock_contended"] += s.Contended
+		if s.AtomicPoints > 0 {
+			c.Stats["atomic_points"] += s.AtomicPoints
+		}
 		if s.MaxRunnable > c.Stats["max_runnable"] {
 			c.Stats["max_runnable"] = s.MaxRunnable
 		}
